@@ -97,6 +97,20 @@ func HostileData(r *rand.Rand, nlinks int) ([]byte, bool, string) {
 			bf = make([]byte, fl)
 			r.Read(bf)
 		}
+		if len(bf) > 0 {
+			// runs of zero bytes at either end (writers differ in trimming them)
+			switch r.Intn(6) {
+			case 0:
+				for i := r.Intn(len(bf)); i >= 0; i-- {
+					bf[i] = 0
+				}
+				class += "+bf-leadzero"
+			case 1:
+				for i := r.Intn(len(bf)); i < len(bf); i++ {
+					bf[i] = 0
+				}
+			}
+		}
 		if r.Intn(8) != 0 {
 			m.Data = bf
 		} else {
@@ -124,7 +138,14 @@ func HostileData(r *rand.Rand, nlinks int) ([]byte, bool, string) {
 // HostileName returns an adversarial link name (nil = absent).
 func HostileName(r *rand.Rand, i int) *string {
 	var s string
-	switch r.Intn(14) {
+	switch r.Intn(16) {
+	case 9:
+		// multi-byte and invalid UTF-8 where the hex prefix belongs: more bytes than characters
+		s = []string{"\uFB00", "\u65E5a", "\U0001F600", "\u00e9", "\u00e9a", "0\u00e9", "\xff\xfe\xfd", "0\xff", "A\u0301x", "\xe6\x97", "\u00e9\u00e9\u00e9x", "0\U0001F600n"}[r.Intn(12)]
+	case 10:
+		b := make([]byte, 1+r.Intn(5))
+		r.Read(b)
+		s = string(b)
 	case 0:
 		return nil
 	case 1:
